@@ -2,7 +2,7 @@
 from vlib import q
 from vlib.cfg import cfg_of
 from vlib.prov import (peel, fmt, is_param, contains, alts, deep_peel, same_origin, leaves, is_param_field,
-                       root_param)
+                       root_param, just)
 
 LEVEL = "other"
 EXPLANATION = (
@@ -57,9 +57,10 @@ def r6(ctx, cfg):
 
 
 def _msg_funds(o, fkey):
+    # (the list as it is: one that was filtered, sorted or de-duplicated in place on the way is another list)
     if fkey.endswith("execute_wasm"):
-        return is_param_field(o, "msg", "funds")
-    return is_param(o, "funds")
+        return just(o, lambda x: is_param_field(x, "msg", "funds"))
+    return just(o, lambda x: is_param(x, "funds"))
 
 
 def r1_r2(ctx, cfg):
